@@ -62,6 +62,10 @@ def play_case(case_id: str, seed: int, force_variant=None, profile=None, max_ops
     meta['style'] = tune['style']
     mons = [m() for m in monitors]
     sess = impl.Session(kw, extra, mons)
+    # requests naming a card twice are offered only where warnings are errors: there the repaired code
+    # refuses them (and an unrepaired one deals the card twice, which C06 reports); where warnings are
+    # ignored the card is dealt twice at the caller's wish and the hand leaves every property's scope
+    tune['warnerr'] = bool(extra.get('warnerr'))
     err = sess.init()
     stats = Counter()
     if err is not None:
